@@ -491,13 +491,84 @@ def check_fault(case, rec):
     return fails
 
 
+def api_value(v):
+    """Command-list value -> Python value for Program.add_command."""
+    if isinstance(v, dict):
+        if "r" in v:
+            return v["r"]
+        if "s" in v:
+            return v["s"]
+        if "t" in v:
+            return dict(v["t"])
+    if isinstance(v, list):
+        return [api_value(x) for x in v]
+    return v
+
+
+def check_extend(case, rec):
+    """A program that has already run successfully is extended through add_command with one valid writer and one
+    ill-formed command, and run again: the rejection must still precede every further execution and write nothing."""
+    from mpilot.program import Program
+
+    io = SP.CSV
+    cmds = model_commands(case["model"])
+    faults = [f for f in faults_of(cmds, io) if f[1] not in ("unknown_command", "duplicate_result", "missing_required", "undeclared_param")
+              and f[2][0] == "reject"]
+    if not faults:
+        return []
+    fcmds, label, expect = faults[case["picks"][0] % len(faults)]
+    # the faulted command is the one that differs from the valid list
+    bad = [fc for fc, c in zip(fcmds, cmds) if fc != c]
+    if len(bad) != 1 or len(fcmds) != len(cmds):
+        rec.exclude("extend:fault_not_expressible_as_one_added_command")
+        return []
+    bad = dict(bad[0], name="AddedBad")
+    if label == "non_data_producer" and any(isinstance(v, dict) and v.get("r") == bad["name"] for _, v in bad["args"]):
+        return []
+    first = [n["name"] for n in case["model"]["nodes"] if n["cmd"] == "EEMSRead"][0]
+    tmp = tempfile.mkdtemp(prefix="vcheck-c12-")
+    try:
+        M.write_table(case["model"], os.path.join(tmp, "input.csv"))
+        try:
+            prog = Program.from_source(text_of(cmds), libraries=libraries(io), working_dir=tmp)
+            prog.run()
+        except Exception as exc:
+            rec.exclude("extend:base_model_does_not_run:%s" % type(exc).__name__)
+            return []
+        del EXEC_LOG[:]
+        before = listing(tmp)
+        lib = prog.command_library
+        sig = "extend:" + label.split("<-")[0]
+        try:
+            prog.add_command(lib["EEMSWrite"], "AddedWriter", {"OutFileName": "added.csv", "OutFieldNames": [first]})
+            prog.add_command(lib[bad["cmd"]], bad["name"], {k: api_value(v) for k, v in bad["args"]})
+            prog.run()
+            return [Failure(sig + "|illformed_accepted", "extended program accepted; expected %s\nadded: %r" % ("/".join(expect[1]), bad))]
+        except Exception as exc:
+            kind = type(exc).__name__
+        rec.label("extend:" + label.split("<-")[0])
+        rec.nontrivial_case(["extend", case["model"], label])
+        fails = []
+        if kind not in expect[1] and kind not in WELLFORMEDNESS_ERRORS:
+            fails.append(Failure(sig + "|wrong_error:%s" % kind, "expected %s for added %r" % ("/".join(expect[1]), bad)))
+        if EXEC_LOG:
+            fails.append(Failure(sig + "|executed_before_rejection", "execute() calls after extending a finished program with an "
+                                 "ill-formed command: %r\nadded: %r" % (EXEC_LOG[:4], bad)))
+        if listing(tmp) != before:
+            fails.append(Failure(sig + "|side_effect_before_rejection", "files written although the extended program was rejected: %r" % (
+                sorted(set(x[0] for x in listing(tmp)) - set(x[0] for x in before)),)))
+        return fails
+    finally:
+        shutil.rmtree(tmp, ignore_errors=True)
+
+
 @st.composite
 def fault_cases(draw, exhaustive_positions=True):
     model = draw(M.typed_models(max_nodes=6, clean=True))
     return {"model": model, "all": exhaustive_positions, "picks": draw(st.lists(st.integers(0, 10000), min_size=8, max_size=8))}
 
 
-PARTS = {"decl": check_decl, "pair": check_pair, "fault": check_fault}
+PARTS = {"decl": check_decl, "pair": check_pair, "fault": check_fault, "extend": check_extend}
 
 
 def setup_parent(ctx):
@@ -509,3 +580,4 @@ def run_shard(ctx, rec):
     drive_enum(ctx, rec, "decl", decl_cases(), check_decl, exhaustive=True, max_novel=40)
     drive_enum(ctx, rec, "pair", pair_cases(), check_pair, exhaustive=True, max_novel=12)
     drive(ctx, rec, "fault", fault_cases(), check_fault, ctx.n(160, 4000))
+    drive(ctx, rec, "extend", fault_cases(), check_extend, ctx.n(400, 8000))
